@@ -603,6 +603,7 @@ template <class F> static void each_obj(Ctx &c, F &&f) {
 
 bool settle(Ctx &c, const Op &op, ExcKind ex, unsigned allowed) {
     bool fired = c.fired;
+    const bool plain_copy = c.plain_copy; c.plain_copy = false;
     if (c.stats) {
         if (op.fault & F_ALLOC) { c.stats->faults_alloc_planned++; if (fired) c.stats->faults_alloc_fired++; }
         if (op.fault & F_CORRUPT) { c.stats->faults_corrupt_planned++; if (ex != EX_NONE && ex != EX_BAD_ALLOC) c.stats->faults_corrupt_thrown++; }
@@ -639,7 +640,7 @@ bool settle(Ctx &c, const Op &op, ExcKind ex, unsigned allowed) {
         set_viol(c, "bad_alloc_not_propagated", std::string("an allocation failed inside the operation but ") + exc_name(ex) + " reached the caller instead of std::bad_alloc");
         return false;
     }
-    if (ex == EX_UNICODE && !(allowed & bit(ex))) {
+    if (ex == EX_UNICODE && !(allowed & bit(ex)) && !plain_copy) {
         // an operation may reject a string operand that is itself not well-formed UTF-8 (e.g. replace() re-validates)
         for (auto *o : c.strs) if (o->role != ROLE_NONE && !strict_utf8(o->model.data(), o->model.size())) allowed |= bit(EX_UNICODE);
     }
